@@ -37,6 +37,11 @@ def check_history(run, probe, history, probes, oob):
     used = set()
     produced = []
     for call in history:
+        if call[0] == "!script":
+            # the environment's long-lived parser object has read another script before
+            c15.parse_probe(worldA, call[1])
+            run.cls("history-with-parsed-script")
+            continue
         if call[0] == "!fresh":
             # the environment has handed out fresh names before (FV9 -> FV10: names of another length / order)
             for _ in range(call[1]):
@@ -77,8 +82,20 @@ def check_history(run, probe, history, probes, oob):
     run.case(key=(probe, [(c[0], c[2] if len(c) > 2 else None) for c in history]), nontrivial=nontriv,
              sample={"probe": show(probe, 120), "history": [c[0] for c in history]} if len(history) > 8 else None)
     for call in probes:
-        a = run_call(envA, call)
-        b = run_call(envB, call)
+        if call[0] == "parse-with-long-lived-parser":
+            # the same text through the parser object that has been used before / through a new parser
+            from io import StringIO
+            from pysmt.smtlib.parser import SmtLibParser
+            a = c15.parse_probe(worldA, call[1])
+            with envB:
+                try:
+                    b = ("ok", SmtLibParser(envB).get_script(StringIO(call[1])).get_last_formula())
+                except Exception as e:
+                    b = ("raised", type(e).__name__)
+            call = ("parse-with-long-lived-parser", ("CONST", (STRING, call[1][:120]), ()), None)      # (for the report)
+        else:
+            a = run_call(envA, call)
+            b = run_call(envB, call)
         ka, kb = outcome_key(envA, a, call), outcome_key(envB, b, call)
         run.cls("probe:" + call[0])
         if ka != kb:
@@ -242,6 +259,15 @@ def gen_case(rnd):
         atom = ("LT", (), (("TOREAL", (), (sym(*i_),)), sym(*r_)))
         two = ("AND", (), (("FORALL", (i_, r_), (atom,)), atom) + ((probe,) if t == BOOL else ()))
         probes += [("prenex", two, None), ("simplify", ("FORALL", (i_, r_), (("OR", (), (atom, atom)),)), None)]
+    if g.pct(15):
+        lg = g.choice(["QF_LRA", "QF_LIA", "QF_RDL", "QF_UFLRA", "QF_BV"])
+        history.insert(g.rnd.randrange(len(history) + 1),
+                       ("!script", "(set-logic %s)\n(declare-fun c14b () Bool)\n(assert (or c14b (not c14b)))\n" % lg))
+        # numerals are typed by the logic of THIS text (none: Int)
+        probes.append(("parse-with-long-lived-parser",
+                       "(declare-fun c14b () Bool)\n(declare-fun c14f (Int) Bool)\n(assert (and (> (ite c14b 1 2) 0) (c14f 3)))\n", None))
+        probes.append(("parse-with-long-lived-parser",
+                       "(set-logic QF_LRA)\n(declare-fun c14r () Real)\n(assert (< c14r (+ 1 2)))\n", None))
     oob = [g.choice(OOB)] if g.pct(30) else []
     return probe, history, probes, oob
 
